@@ -40,6 +40,8 @@ GRID = [(s, u, a) for s in SUPPLY for u in FITNESS for a in FITNESS]
 KINDS = [(0, 0, 0), (1, 0.25, 1), (3, 1, 0.25), (0, 1, 0), (1e-100, 1, 1),
          (1e100, 0.25, 0.25)]
 MAX_CHILDREN = 3
+#: scenarios with at most this many initial children are searched one level deeper
+DEEPER = 1
 REL = 1e-9
 
 
@@ -227,45 +229,55 @@ def check_kept(composite, demand):
 
 
 def total_class(label, kinds):
-    if label == "uniform" or not kinds:
+    if not kinds:
+        return ":no-children"
+    if label == "uniform":
         return ""
     index = ATTRS.index(label.split(":")[1])
     return ":zero-total" if all(kind[index] == 0 for kind in kinds) else ""
 
 
+GROUPS = {"share-bounds": "distribution", "sum": "distribution", "share": "distribution"}
+
+
+def group(clause):
+    return GROUPS.get(clause, clause)
+
+
 def classify(case, problem):
-    """(key, minimal case): does the last operation alone break the same clause on a
-    composite freshly built over the children as they were (static), or only after the
-    history (history-dependent)?"""
+    """(key, minimal case).  The key names the composite, the clause (the three clauses
+    about the distributed shares count as one) and whether the clause already breaks on a
+    composite freshly built over the children as they are (static) or only after the
+    history (history); ':zero-total' / ':no-children' mark the fallback situations."""
     clause, _what, index = problem
     label = case["label"]
+    kind = group(clause)
     if index < 0:
-        return "%s:%s:initial%s" % (label, clause, total_class(label, case["children"])), case
+        return "%s:%s:static%s" % (label, kind, total_class(label, case["children"])), case
     ops = [tuple(op) for op in case["ops"]][:index + 1]
     # the children right before the failing operation
-    composite, mine = build(label, [tuple(kind) for kind in case["children"]])
+    composite, mine = build(label, [tuple(kind_) for kind_ in case["children"]])
     for op in ops[:-1]:
         apply(composite, mine, op)
     before = [(c.supply, c.utilisation, c.allocation) for c in mine]
     last = ops[-1]
     after = list(before)
     if last[0] == "set":
-        kind = list(after[last[1]])
-        kind[ATTRS.index(last[2])] = last[3]
-        after[last[1]] = tuple(kind)
+        changed = list(after[last[1]])
+        changed[ATTRS.index(last[2])] = last[3]
+        after[last[1]] = tuple(changed)
     elif last[0] == "append":
         after.append(tuple(last[1]))
     elif last[0] == "remove":
         del after[last[1]]
-    suffix = ":no-children" if not after else total_class(label, after)
-    static = {"label": label, "children": before, "ops": [last]}
+    suffix = total_class(label, after)
+    if last[0] == "write":
+        static = {"label": label, "children": before, "ops": [last]}
+    else:
+        static = {"label": label, "children": after, "ops": []}
     again = run_case(static)
-    if again is not None and again[0] == clause:
-        return "%s:%s:static:%s%s" % (label, clause, last[0], suffix), static
-    state = {"label": label, "children": after, "ops": []}
-    again = run_case(state)
-    if again is not None and again[0] == clause:
-        return "%s:%s:static:state%s" % (label, clause, suffix), state
+    if again is not None and group(again[0]) == kind:
+        return "%s:%s:static%s" % (label, kind, suffix), static
     # history dependent: drop operations as long as the clause still breaks at the end
     changed = True
     while changed:
@@ -277,12 +289,12 @@ def classify(case, problem):
                 again = run_case(trial)
             except Exception:  # noqa: B902 - indices no longer fit
                 continue
-            if again is not None and again[0] == clause and again[2] == len(shorter) - 1:
+            if (again is not None and group(again[0]) == kind
+                    and again[2] == len(shorter) - 1):
                 ops, changed = shorter, True
                 break
-    return ("%s:%s:after-%s:%s%s" % (
-        label, clause, "-".join(op[0] for op in ops[:-1]) or "nothing", last[0], suffix),
-        {"label": label, "children": case["children"], "ops": ops})
+    return ("%s:%s:history%s" % (label, kind, suffix),
+            {"label": label, "children": case["children"], "ops": ops})
 
 
 def report(acc, case, problem):
@@ -312,7 +324,7 @@ def shard_grid(args):
         except Exception as err:  # noqa: B902
             problem = ("raised-%s" % type(err).__name__, "construction raised %s" % err)
         states += 1
-        acc.case(nontrivial_key=(label, children) if interesting else None)
+        acc.case()
         acc.outcome(None if problem is None else problem[0])
         if problem:
             report(acc, case, problem + (-1,))
@@ -411,7 +423,7 @@ def shard_bfs(args):
                     continue
                 state = canon(composite, mine)
                 new = state not in seen
-                interesting = new and len(mine) >= 2
+                interesting = new and len(mine) >= 2 and op[0] == "write" and op[1] > 0
                 acc.case(
                     nontrivial_key=(label, state) if interesting else None,
                     sample=({**case, "ops": list(history + (op,))}
@@ -471,23 +483,23 @@ def run(ctx):
         scenarios += list(itertools.combinations_with_replacement(KINDS, count))
     for label in LABELS:
         for children in scenarios:
-            shards.append(("bfs", label, children, depth))
+            shards.append(("bfs", label, children, depth + (len(children) <= DEEPER)))
     ctx.pmap(shard, shards)
     counters = ctx.acc.counters
     ctx.meta.update(
         rule="grid: every ordered tuple of 0..3 children over supply %r x utilisation %r x "
              "allocation %r, each of %r, the fresh composite and every write of %r%s; "
-             "histories: BFS to depth %d over {write D, set child attribute to any grid "
+             "histories: BFS to depth %d (one deeper from <= %d initial children) over {write D, set child attribute to any grid "
              "value, append one of %d child kinds (at most %d children), remove a child} "
              "from every multiset of 0..3 of these kinds, states deduplicated per scenario by "
-             "(demand, per child demand/supply/utilisation/allocation); a state is "
-             "non-trivial when it has >= 2 children (grid writes: and D > 0), distinct by "
-             "(composite kind, state)"
+             "(demand, per child demand/supply/utilisation/allocation); a transition is "
+             "non-trivial when it writes a demand > 0 to >= 2 children, distinct by "
+             "(composite kind, resulting state)"
              % (SUPPLY, FITNESS, FITNESS, LABELS, DEMANDS,
-                " and every pair of different writes" if pairs else "", depth,
+                " and every pair of different writes" if pairs else "", depth, DEEPER,
                 len(KINDS), MAX_CHILDREN),
         exhaustive=True,
-        bounds={"depth": depth, "max_children": MAX_CHILDREN, "supply": SUPPLY,
+        bounds={"depth": depth, "deeper_up_to_children": DEEPER, "max_children": MAX_CHILDREN, "supply": SUPPLY,
                 "fitness": FITNESS, "demands": DEMANDS, "history_child_kinds": KINDS,
                 "grid_write_pairs": pairs, "relative_tolerance": REL},
         parts={
